@@ -427,6 +427,11 @@ fn dh_part(ctx: &Ctx, thorough: bool) {
                     ctx.add(&ctx.nontrivial, 1);
                 },
                 (Ok(Ok(())), None) => ctx.violation("DH accepted an invalid public key", format!("{who} point {}", hex::encode(p)), case),
+                // RFC 7748 section 6.1 / Noise 12.1: an implementation MAY abort on the all-zero output (low-order
+                // points); returning the zeros and refusing are both the standard's behaviour
+                (Ok(Err(_)), Some(w)) if alg == DhAlg::X25519 && w.iter().all(|b| *b == 0) => {
+                    ctx.add(&ctx.nontrivial, 1);
+                },
                 (Ok(Err(e)), Some(_)) => ctx.violation("DH rejected a valid public key", format!("{who} point {}: {e:?}", hex::encode(p)), case),
                 (Err(_), _) => ctx.violation("Dh::dh panicked", format!("{who} point {}", hex::encode(p)), case),
             }
